@@ -59,6 +59,9 @@ class Dflt:
   def __copy__(self):
     return self
 
+  def __reduce__(self):
+    return (Dflt, (self.name,))
+
 
 class Rec:
   """Result of a recording callable."""
@@ -168,6 +171,10 @@ def make_fn(sig, species='function', fn_name=None):
     fn.__module__ = __name__
   except (AttributeError, TypeError):
     pass
+  if species == 'function':
+    # importable by qualified name, so that configurations holding it can be pickled
+    fn.__qualname__ = name
+    globals()[name] = fn
   _fn_cache[key] = fn
   return fn
 
@@ -207,3 +214,26 @@ TAGS = [T0, T1, T2, T3, T4]
 
 def tag_no(t) -> int:
   return TAGS.index(t)
+
+
+# A small class hierarchy of recording classes (C15: subclass matching) -------------------
+
+
+class KA:
+  def __init__(self, p=Dflt('p'), q=Dflt('q'), r=Dflt('r')):
+    self.rec = Rec(type(self).__name__, [('p', p), ('q', q), ('r', r)], (), {})
+
+
+class KB(KA):
+  pass
+
+
+class KC(KB):
+  pass
+
+
+class KD(KA):
+  pass
+
+
+CLASSES = [KA, KB, KC, KD]
